@@ -76,6 +76,20 @@ def varKind : Elem V Hh where
   enc := fun v => v.toList
   dec := fun bs => if bs.length ≤ 8 then some (ByteArray.mk bs.toArray) else none
 
+/-- element that is itself a `List<u64, U16>` (0..16 values, 8 bytes each): root =
+mix_in_length(merkleize(pack(values), limit = 4 chunks), n). -/
+def nestKind : Elem V Hh where
+  pf := none
+  leafHash := fun v =>
+    let chunk (i : Nat) : ByteArray := padTo32 (v.extract (32 * i) (min v.size (32 * (i + 1))))
+    let root := Sha256.hash32Concat (Sha256.hash32Concat (chunk 0) (chunk 1))
+      (Sha256.hash32Concat (chunk 2) (chunk 3))
+    mixIn root (v.size / 8)
+  packHash := fun _ => zero32
+  fixedLen := none
+  enc := fun v => v.toList
+  dec := fun bs => if bs.length % 8 = 0 ∧ bs.length / 8 ≤ 16 then some (ByteArray.mk bs.toArray) else none
+
 def kindOf (name : String) : Option (Elem V Hh) :=
   match name with
   | "u8" => some (basicKind 1)
@@ -87,6 +101,7 @@ def kindOf (name : String) : Option (Elem V Hh) :=
   | "h256" => some h256Kind
   | "cont" => some contKind
   | "var" => some varKind
+  | "nest" => some nestKind
   | _ => none
 
 /-- `T::default()` in SSZ bytes. -/
